@@ -102,6 +102,16 @@ CHECKS = {
              'DAP adapter is driven with readMemory/writeMemory at all offsets and lengths and setVariable/setExpression read-backs.',
         note='Trusted: /proc/<pid>/mem, PTRACE_GETREGS, llvm-objdump. Held on the operations explored after the fix commit for the tail read.',
         ref='DESIGN.md §4 C15'),
+    'C19': dict(
+        technique='runtime monitoring: reference-model monitor (generator-owned static scope model and per-activation values) over every marker stop and every selected frame of generated programs',
+        text='Generated programs with nested blocks, shadowing, sibling blocks, variables declared after the stop and a recursive function stop in '
+             'marker(id); the caller frame is selected and var locals / arg all / var <name> are compared with the scope model of that marker: all '
+             'live bindings listed with their values, nothing declared later or in a sibling block, shadowed names resolve to the innermost live '
+             'binding; in the recursion every frame (also after instruction steps changed the stack depth) shows its own activation; at '
+             'opt-level 1 a shown value must be right. Held at opt-level 0 except the shadowing known finding; opt-level 1 exposes known findings.',
+        note='Trusted: the generator evaluates the same wrapping u64 arithmetic as the program. At opt-level 1 only shown values are judged, not '
+             'the set of listed names (the DWARF lexical blocks need not follow the source).',
+        ref='DESIGN.md §4 C19'),
     'C06': dict(
         technique='runtime monitoring: structural comparison of the debugger\'s Value trees with the debuggee\'s own canonical self-description (reference model = safe Rust in the program)',
         text='Generated programs hold ~40 variables each (locals, statics, thread-locals, arguments) from a recursive type grammar with boundary '
